@@ -309,14 +309,57 @@ def variable_literal_laws(ctx, rng, ts, t, s):
     if not coerced:
         return  # with an empty map validation would run statically, which is a different question
     ctx.count("variable_literal_agreement_checked")
-    ok, c = guarded(ctx, "coerce_input_literal", lambda: coerce_input_literal(lnode, t, vv), case)
+    # a third of the cases put the literal into a fragment that declares some of the variables itself (experimental
+    # fragment variables: declared with or without default, given by the spread as a constant, as an operation variable,
+    # or not at all - in which case the operation's variable of the same name must stay hidden)
+    fvv = None
+    if rng.random() < 0.33:
+        shadow = [d for d in decls if rng.random() < 0.6] or decls[:1]
+        fdefs, fargs = [], []
+        for n, d, tt in shadow:
+            fdefs.append(f'${n}: {d}' + ((' = ' + (lit_text(values.shaped(rng, tt, 2, 0), True) or 'null')) if rng.random() < 0.3 else ''))
+            r = rng.random()
+            if r < 0.4:
+                continue                                    # not given by the spread
+            if r < 0.7:
+                fargs.append(f'{n}: {lit_text(values.shaped(rng, tt, 2, 0.05), True) or "null"}')
+            else:
+                same = [m for m, d2, _ in decls if d2 == d]
+                fargs.append(f'{n}: ${rng.choice(same)}')
+        fdoc = f'{{ ...F{"(" + ", ".join(fargs) + ")" if fargs else ""} }} fragment F({", ".join(fdefs)}) on Query {{ f0 }}'
+        case["fragment_scope"] = fdoc
+        try:
+            from graphql.execution.get_variable_signature import get_variable_signature
+            from graphql.execution.values import get_fragment_variable_values
+            fd = parse(fdoc, experimental_fragment_arguments=True)
+            spread = fd.definitions[0].selection_set.selections[0]
+            sigs = {}
+            for vd in fd.definitions[1].variable_definitions:
+                sg = get_variable_signature(s, vd)
+                if isinstance(sg, GraphQLError):
+                    raise sg
+                sigs[vd.variable.name.value] = sg
+            fvv = get_fragment_variable_values(spread, sigs, vv, None)
+            ctx.count("fragment_scopes_built")
+        except GraphQLError:
+            fvv = None          # the scope itself is invalid (e.g. an ill-typed spread argument): not this law's business
+            ctx.count("fragment_scopes_rejected")
+        except Exception as e:  # noqa: BLE001
+            ctx.violation(f"fragment-scope-crash:{type(e).__name__}", {"scope": fdoc[:300], "exception": repr(e)[:200]}, case)
+            return
+    ok, c = guarded(ctx, "coerce_input_literal", lambda: coerce_input_literal(lnode, t, vv, fvv), case)
     if not ok:
         return
     errs = []
-    ok, _ = guarded(ctx, "validate_input_literal", lambda: validate_input_literal(lnode, t, lambda e, p: errs.append((e.message, list(p))), vv), case)
+    ok, _ = guarded(ctx, "validate_input_literal", lambda: validate_input_literal(lnode, t, lambda e, p: errs.append((e.message, list(p))), vv, fvv), case)
     if not ok:
         return
     accepted = c is not Undefined
+    if not accepted and not errs and lnode.kind == 'variable':
+        # a bare variable without a runtime value at a nullable position: "no value" (the caller falls back to a
+        # default or omits the argument), neither a result nor an error
+        ctx.count("bare_variable_without_value")
+        return
     if accepted != (not errs):
         ctx.violation("variable-literal:coerce-" + ("accepts" if accepted else "rejects") + "-validate-" + ("reports" if errs else "silent"),
                       {"type": ts, "literal": text[:300], "operation": opdoc[:300], "inputs": srepr(inputs)[:300], "coerced": srepr(c)[:200], "errors": errs[:2]}, case)
